@@ -54,7 +54,7 @@ def default_signature(hist, idx, cat):
     return '%s:%s%s' % (ev['op'], cat, (':' + f) if f else '')
 
 
-def run(pid, tier, runs, assumptions, rule, signature=default_signature, extra_cov=None):
+def run(pid, tier, runs, assumptions, rule, signature=default_signature, extra_cov=None, traces=None):
     """runs: list of dicts(constants=..., nshards=..., name=...)."""
     rep = common.Reporter(pid, tier)
     states = trans = 0
@@ -85,6 +85,13 @@ def run(pid, tier, runs, assumptions, rule, signature=default_signature, extra_c
                api_calls_replayed=calls, per_operation=dict(ops), samples=samples, rule=rule,
                exhaustive=True,
                checker_cmd='tlc -workers 1 MC_TTPool_* (16 shards) ; python replay harness/pool.py')
+    if traces and not only:
+        from . import tracecheck
+        tc = tracecheck.run_stage(rep, traces[0], traces[1], common.seed() + 1)
+        cov.update(tc)
+        cov['traces_validated_against_impl'] += tc['recorded_traces_accepted']
+        cov['states'] += tc['trace_states']
+        cov['transitions'] += tc['trace_transitions']
     if extra_cov:
         cov.update(extra_cov)
     return rep.finish(cov, assumptions)
